@@ -333,6 +333,34 @@ def run_impl(case):
             except Exception:  # noqa
                 pass
         res["phase1_rejects"] = p1
+        # reference for the `unnamed-inner-field` finding only: the exact texts the inner fields'
+        # own `_validate` produces for the supplied elements / keys / values (their scratch `_name`
+        # is still unset when the first phase failed)
+        inner = []
+        for k, v in kw.items():
+            f = getattr(cls, k, None) if k in decl_of else None
+            items = getattr(f, "items", None)
+            if items is None:
+                continue
+            fields_ = items if isinstance(items, (list, tuple)) else [items]
+            if isinstance(v, dict):
+                elems = list(v.keys()) + list(v.values())
+            elif isinstance(v, (list, tuple, set)):
+                elems = list(v)
+            else:
+                continue
+            for fld in fields_:
+                for x in elems:
+                    try:
+                        if hasattr(fld, "deserialize") and fld.__class__.__name__ == "Enum":
+                            fld.deserialize(x)
+                        else:
+                            fld._validate(x)
+                    except (TypeError, ValueError) as e:
+                        inner.append(str(e))
+                    except Exception:  # noqa
+                        pass
+        res["inner_texts"] = sorted(set(inner))
     return res
 
 
@@ -449,7 +477,7 @@ def path_of_text(t):
 COLLECTION_KINDS = ("seqAny", "seqOf", "seqPos", "setAny", "setOf", "tupleOf", "tuplePos", "mapAny", "mapOf")
 
 
-def classify_no_path(text, raised, mode, ff, invalid_kinds, supplied_kinds):
+def classify_no_path(text, raised, mode, ff, invalid_kinds, supplied_kinds, inner_texts=()):
     """stable phenomenon key (phenomenon:site) for a message that does not begin with a field path"""
     t = text
     if mode == "deser" and (raised == "IndexError" and "index out of range" in t) and \
@@ -466,7 +494,7 @@ def classify_no_path(text, raised, mode, ff, invalid_kinds, supplied_kinds):
         return "no-path:enum-invalid-value:deser"
     if t.startswith("[") and mode == "deser" and ff:
         return "field-lost:json-list-under-fail-fast:deser-falsy"
-    if mode == "deser" and any(k in COLLECTION_KINDS for k in invalid_kinds) and (
+    if mode == "deser" and any(k in COLLECTION_KINDS for k in invalid_kinds) and t in inner_texts and (
             t.startswith("None: ") or t.startswith("Expected ") or t.startswith("Got ") or t.startswith("Does not match")):
         return "no-path:unnamed-inner-field:deser-collection"
     return "no-path:other"
@@ -536,7 +564,7 @@ def oracle(case, impl, model):
         p = path_of_text(t)
         hit = [n for n in invalid if p is not None and names_field(p, cls_name, n)]
         if not hit:
-            lost_keys.append((classify_no_path(re.sub(r"^" + re.escape(cls_name) + r"\.", "", t), raised, mode, ff, invalid_kinds, supplied_kinds),
+            lost_keys.append((classify_no_path(re.sub(r"^" + re.escape(cls_name) + r"\.", "", t), raised, mode, ff, invalid_kinds, supplied_kinds, impl.get("inner_texts", [])),
                               f"message does not begin with a path naming an invalid field (invalid={invalid}): {t!r} [{where}]"))
     # (3) every ErrorInfo carries such a field and a non-empty problem
     for idx, i in enumerate(infos):
